@@ -15,7 +15,7 @@
    writer and a reader inside the submitting call (inproc_queue_run), so no callback interleaving is lost by that. *)
 EXTENDS Naturals, Sequences, FiniteSets, TLC, Json
 
-CONSTANTS MaxConn, MaxOps, MaxMsgs, Shapes, HdrWords, WithReject, Fails, MinOps
+CONSTANTS MaxConn, MaxOps, MaxMsgs, Shapes, HdrWords, WithReject, Fails, MinOps, Tmos
 
 VARIABLES
   lst,      \* listener of A: "none" | "open" | "closed"
@@ -103,12 +103,12 @@ Connect(mode) ==
   /\ evs' = [evs EXCEPT ![k] = [s \in Sides |-> IF rej[s] THEN <<"pre", "rem">> ELSE <<"pre", "post">>]]
   \* the dialer whose pipe was rejected by its own socket waits and dials again; a dialer whose pipe is up owns it
   /\ dl' = IF rb THEN "wait" ELSE "up"
-  /\ UNCHANGED <<lst, rd, wr, ops, sok, got, dropped, sopen, nextMsg>>
+  /\ TRUE
 
 Dial(mode) ==
   /\ sopen[2] /\ dl \in {"none", "closed"}
   /\ IF lst = "open" /\ nconn < MaxConn THEN
-        /\ Connect(mode)
+        /\ Connect(mode) /\ UNCHANGED <<lst, rd, wr, ops, sok, got, dropped, sopen, nextMsg>>
         /\ lastAct' = [a |-> "dial", mode |-> mode, out |-> [rv |-> IF mode = "sync" /\ rej[2] THEN "econnaborted|ok|eclosed" ELSE "ok", done |-> <<>>]]
      ELSE IF lst # "open" THEN
         \* nobody listens: a synchronous dial fails (and the dialer is discarded), a background dial keeps trying
@@ -117,11 +117,17 @@ Dial(mode) ==
         /\ UNCHANGED <<nconn, endst, qclosed, evs, rej, lst, rd, wr, ops, sok, got, dropped, sopen, nextMsg>>
      ELSE FALSE
 \* time passes (more than the largest reconnect interval): a waiting dialer dials again
+\* An operation submitted with a timeout (30 ms) that is still parked when the clock has advanced completes with NNG_ETIMEDOUT
+\* (C02: not before its duration - nothing times out without a tick - and only if it had not completed); a failed send keeps its message.
+Timed(o) == {i \in 1..Len(o) : o[i].st = "pend" /\ o[i].tmo > 0}
+Expire(o) == [i \in 1..Len(o) |-> IF i \in Timed(o) THEN [o[i] EXCEPT !.st = "done", !.rv = "etimedout"] ELSE o[i]]
+Unpark(q) == [k \in Conns |-> [s \in Sides |-> SelectSeq(q[k][s], LAMBDA x : x \notin Timed(ops))]]
 Tick ==
-  /\ dl = "wait"
-  /\ IF lst = "open" /\ sopen[2] THEN nconn < MaxConn /\ Connect("nb")
-     ELSE UNCHANGED <<dl, nconn, endst, qclosed, evs, rej, lst, rd, wr, ops, sok, got, dropped, sopen, nextMsg>>
-  /\ lastAct' = [a |-> "tick", d |-> 50, out |-> [done |-> <<>>]]
+  /\ dl = "wait" \/ Timed(ops) # {}
+  /\ IF dl = "wait" /\ lst = "open" /\ sopen[2] THEN nconn < MaxConn /\ Connect("nb") /\ UNCHANGED <<sok, got, dropped, sopen, nextMsg, lst>>
+     ELSE UNCHANGED <<dl, nconn, endst, qclosed, evs, rej, lst, sok, got, dropped, sopen, nextMsg>>
+  /\ ops' = Expire(ops) /\ rd' = Unpark(rd) /\ wr' = Unpark(wr)
+  /\ lastAct' = [a |-> "tick", d |-> 50, out |-> [done |-> DoneList(ops, ops')]]
 
 \* ---------------------------------------------------------------- pipe operations (inproc_pipe_send / inproc_pipe_recv / inproc_queue_run)
 \* the message record also says whether the driver keeps a second reference (then the receiver's copy has to be allocated)
@@ -129,11 +135,11 @@ Tick ==
 \* allocates (nni_msg_pull_up duplicates it): then the message is lost - the send has already succeeded, the receive keeps
 \* waiting - which is the loss C20 allows; nothing else changes.
 FailRec(fail, fired) == IF fail > 0 THEN [failed |-> fired] ELSE <<>>
-Send(k, s, sh, h, shared, fail) ==
+Send(k, s, sh, h, shared, fail, tmo) ==
   /\ NOps < MaxOps /\ nextMsg <= MaxMsgs /\ endst[k][s] = "up"
   /\ LET i == NOps + 1
          m == [m |-> nextMsg, sh |-> sh, h |-> h, shared |-> shared]
-         o == [kind |-> "send", k |-> k, s |-> s, st |-> "pend", rv |-> "none", msg |-> m]
+         o == [kind |-> "send", k |-> k, s |-> s, st |-> "pend", rv |-> "none", msg |-> m, tmo |-> tmo]
          lost == fail > 0 /\ shared /\ ~qclosed[k] /\ rd[k][Other(s)] # <<>> IN
      /\ nextMsg' = nextMsg + 1
      /\ IF qclosed[k] THEN
@@ -157,14 +163,14 @@ Send(k, s, sh, h, shared, fail) ==
            /\ ops' = Append(ops, o)
            /\ wr' = [wr EXCEPT ![k][s] = Append(@, i)]
            /\ UNCHANGED <<rd, sok, got, dropped>>
-     /\ lastAct' = [a |-> "send", op |-> i, k |-> k, s |-> s - 1, m |-> m.m, h |-> h, sh |-> sh, shared |-> shared, fail |-> fail,
+     /\ lastAct' = [a |-> "send", op |-> i, k |-> k, s |-> s - 1, m |-> m.m, h |-> h, sh |-> sh, shared |-> shared, fail |-> fail, tmo |-> tmo,
                     out |-> [done |-> DoneList(ops, ops')] @@ FailRec(fail, lost)]
   /\ UNCHANGED <<lst, dl, nconn, endst, qclosed, evs, sopen, rej>>
 
-Recv(k, s, fail) ==
+Recv(k, s, fail, tmo) ==
   /\ NOps < MaxOps /\ endst[k][s] = "up"
   /\ LET i == NOps + 1
-         o == [kind |-> "recv", k |-> k, s |-> s, st |-> "pend", rv |-> "none", msg |-> [m |-> 0, sh |-> "e", h |-> 0, shared |-> FALSE]]
+         o == [kind |-> "recv", k |-> k, s |-> s, st |-> "pend", rv |-> "none", msg |-> [m |-> 0, sh |-> "e", h |-> 0, shared |-> FALSE], tmo |-> tmo]
          W == wr[k][Other(s)]
          lost == fail > 0 /\ ~qclosed[k] /\ W # <<>> /\ ops[Head(W)].msg.shared
          \* the writers consumed by this call: the first one if its message is lost, and then the next one (which is delivered)
@@ -188,7 +194,7 @@ Recv(k, s, fail) ==
                  /\ wr' = [wr EXCEPT ![k][Other(s)] = W1]
                  /\ sok' = [sok EXCEPT ![k][Other(s)] = IF lost THEN Append(@, ops[Head(W)].msg) ELSE @]
                  /\ UNCHANGED got
-     /\ lastAct' = [a |-> "recv", op |-> i, k |-> k, s |-> s - 1, fail |-> fail, out |-> [done |-> DoneList(ops, ops')] @@ FailRec(fail, lost)]
+     /\ lastAct' = [a |-> "recv", op |-> i, k |-> k, s |-> s - 1, fail |-> fail, tmo |-> tmo, out |-> [done |-> DoneList(ops, ops')] @@ FailRec(fail, lost)]
   /\ UNCHANGED <<lst, dl, nconn, endst, qclosed, evs, sopen, rej, nextMsg>>
 
 \* nng_aio_cancel of a parked operation (inproc_queue_cancel); of a completed one: nothing happens
@@ -250,8 +256,8 @@ Reject(s) ==
 
 Next == \/ Listen \/ Listen2 \/ Tick \/ LClose \/ DClose
         \/ (\E mode \in {"sync", "nb"} : Dial(mode))
-        \/ (\E k \in Conns, s \in Sides : PipeClose(k, s) \/ (\E f \in Fails : Recv(k, s, f))
-              \/ (\E sh \in Shapes, h \in HdrWords, shared \in BOOLEAN, f \in Fails : Send(k, s, sh, h, shared, f)))
+        \/ (\E k \in Conns, s \in Sides : PipeClose(k, s) \/ (\E f \in Fails, t \in Tmos : Recv(k, s, f, t))
+              \/ (\E sh \in Shapes, h \in HdrWords, shared \in BOOLEAN, f \in Fails, t \in Tmos : Send(k, s, sh, h, shared, f, t)))
         \/ (\E i \in 1..MaxOps : Cancel(i))
         \/ (\E s \in Sides : SockClose(s) \/ Reject(s))
 Spec == Init /\ [][Next]_vars
